@@ -14,7 +14,8 @@ RULE = ("one run = a tape-generated class hierarchy (program, 0-2 base classes -
         "instances of 1-2 classes) declaring 1-12 variables with formats B H I Q b h i q x "
         "and multi-element formats (3B 4H 16I 5s) in one array map, in 'percpu' also a "
         "per-CPU map with possible CPUs > online CPUs; a generated program body copies "
-        "variables and stores constants; a history of up to 30 operations (Python write, "
+        "variables and stores constants; a history of up to 30 operations (Python write - 40 % "
+        "of them a value Python wrote to that variable before, so that values recur -, "
         "program run on CPU k by the interpreter, Python read, per-CPU read) is checked "
         "against a reference model after every operation, and the variables' byte ranges "
         "must be disjoint and inside the map; a two-party history, no timing dimension; "
@@ -238,13 +239,22 @@ def run(tape, scenario, want_c10=False):
             pc_vars = [d for d in decls if d[3] == "percpu"]
             nops = 4 + tape.draw("c08/nops", 26)
             runs = 0
+            py_values = {}
             for step in range(nops):
                 if violations:
                     break
                 op = tape.draw("c08/op", 4)
                 if op == 0 and array_vars:
                     h, n, f, k = tape.pick("c08/wvar", array_vars)
-                    v = draw_value(tape, f)
+                    earlier = py_values.setdefault((h, n), [])
+                    if earlier and tape.chance("c08/recurring-value", 40):
+                        # the value Python wrote before, possibly overwritten by the
+                        # program in between
+                        v = tape.pick("c08/which-earlier", earlier)
+                        world.count("c08/python-wrote-an-earlier-value-again")
+                    else:
+                        v = draw_value(tape, f)
+                        earlier.append(v)
                     setattr(obj(h), n, v)
                     model[(h, n)] = v
                     history.append(("py_write", h, n, f))
